@@ -38,7 +38,7 @@ func genEncode(format int, m restlicodec.Marshaler) (string, error) {
 		err := m.MarshalRestLi(w)
 		return w.Finalize(), err
 	default:
-		return restlicodec.BuildQueryParams(func(pw func(string) restlicodec.Writer) error { return m.MarshalRestLi(pw("p")) })
+		return genEncodeQuery(m) // module-specific (c01gen_v2.go / harness/root/zzh/c01gen_root.go)
 	}
 }
 
